@@ -9,7 +9,7 @@
     start/end line/column statements for tokens and errors are tested by the check's oracle. *)
 From Coq Require Import NArith List.
 From SasLexer Require Import Gen.TokenType Gen.ErrorKind Gen.Channel Model.Base Model.Core Model.Buffer
-     Model.Lexer3 Spec.RefLex Proofs.Generic Proofs.Lines Proofs.LexLines Proofs.TokLines Proofs.ErrLines Proofs.OcAll Proofs.MacroFree.
+     Model.Lexer3 Spec.RefLex Proofs.Generic Proofs.Lines Proofs.LexLines Proofs.TokLines Proofs.ErrLines Proofs.ColLines Proofs.OcAll Proofs.MacroFree.
 Import ListNotations.
 Open Scope N_scope.
 
@@ -74,6 +74,35 @@ Theorem C04_every_program_token_lines : forall first src (d : bool) (A : Type) (
 Proof. intros. apply (run_TLInv first); assumption. Qed.
 Print Assumptions C04_every_program_token_lines.
 
+(** Start columns of tokens, as the accessor of the returned buffer reports them.  For every input,
+    both profiles of the lexer and of the accessor: under the premises of [C04_line_table] and with
+    the EOF token in place, the start column of every token is the number of characters between
+    the last line feed before the token (or the start of the text after the byte-order mark) and
+    the token.  Combines the position invariant (C03), the line table and the token lines. *)
+Theorem C04_token_start_column : forall (cfg : config) (src : list char),
+  let r := lex cfg src in
+  let '((bb, _), text) := split_bom src in
+  lr_outcome r = None ->
+  g_lines_ok (s_ghost (lr_state r)) = true ->
+  g_line_debt (s_ghost (lr_state r)) = false ->
+  c_rest (s_cur (lr_state r)) = [] ->
+  match w_toks (s_buf (lr_state r)) with t :: _ => tt_eqb (t_type t) T_EOF | [] => false end = true ->
+  forall d i t, nthN (b_toks (lr_buffer r)) i = Some t ->
+  forall pre rest, text = pre ++ rest -> blen pre + bb = t_byte t ->
+    get_token_start_column d (lr_buffer r) i = AOk (col_of pre 0).
+Proof. exact lex_token_start_column. Qed.
+Print Assumptions C04_token_start_column.
+
+Theorem C04_macro_free_token_start_column : forall (msep : bool) (src : list char),
+  macro_free (body_of src) = true ->
+  let r := lex (mkCfg false msep) src in
+  let '((bb, _), text) := split_bom src in
+  forall d i t, nthN (b_toks (lr_buffer r)) i = Some t ->
+  forall pre rest, text = pre ++ rest -> blen pre + bb = t_byte t ->
+    get_token_start_column d (lr_buffer r) i = AOk (col_of pre 0).
+Proof. exact mf_C04_macro_free_token_start_column. Qed.
+Print Assumptions C04_macro_free_token_start_column.
+
 (** Lines and columns of errors.  For every input and both profiles: if the run returns with the
     monitor on, every reported error carries the 1-based line of its position (one plus the number
     of line feeds before it) and, as column, the number of characters since the last line feed
@@ -130,6 +159,14 @@ Example c04_token_lines_example :
    match w_toks (s_buf (lr_state r)) with t :: _ => tt_eqb (t_type t) T_EOF | [] => false end) = (None, true, true) /\
   map (fun t => (t_byte t, t_line t)) (b_toks (lr_buffer r)) = [(0, 0); (5, 1); (9, 2); (11, 2); (12, 3); (13, 3); (14, 3)].
 Proof. vm_compute. split; reflexivity. Qed.
+
+(** start columns behind a BOM and after line feeds *)
+Example c04_column_example :
+  let src := [65279; 120; 32; 233; 59; 10; 32; 32; 121; 59] in
+  let b := lr_buffer (lex (mkCfg true false) src) in
+  map (fun i => get_token_start_column true b i) [0; 1; 2; 3; 4; 5; 6; 7] =
+  [AOk 0; AOk 1; AOk 2; AOk 3; AOk 4; AOk 2; AOk 3; AOk 4].
+Proof. vm_compute. reflexivity. Qed.
 
 (** errors: a BOM, an unterminated comment after two lines, and a missing '=' after multi-byte text *)
 Example c04_error_example :
